@@ -1,14 +1,16 @@
 /-
 Primitives of the Python fragment used by the translations of `_equals_impl` and of the `__eq__` methods that call it
-(harness/pytr_c08.py), and by the neutralisation step of `HTMLDependency.serialize_to_script_json`.
+(harness/pytr_c08.py), and `str.replace` with a key of any length — the neutralisation step of
+`HTMLDependency.serialize_to_script_json` (not used by a translation; tied to the model by Props/SrcC08.lean `src_neutralise`,
+checked against the interpreter by the `srcc08 replace` op).
 
 `pyEqWith objEq a b` is Python's `a == b` on the value shapes listed below; `objEq x y` is what `x.__eq__(y)` returns for
 an instance `x` of one of the library's classes whose `__eq__` is translated (`Tag`, `TagList`, `HTMLDependency`: all
 three are `return _equals_impl(self, other)`, which always returns a `bool`, never `NotImplemented`).  The translator
-passes the run-time dispatch over the translated `__eq__` methods for it (`eqDispatch` in Generated/Src.lean).
+passes the run-time dispatch over the translated `__eq__` methods for it (`eqDispatch` below, applied to the three translations).
 
 Covered (everything else raises `unsupported`; each row was checked against /venv/bin/python, see harness/srctie_c08.py
-`PRIM_CASES` and the `src eq_deep` lines of every run):
+`_prim_cases`, one pair per row, compared through `TagList.__eq__` on one-element child lists in every run):
 
 * `None`, `bool`, `int`: `None == None`; `bool`/`int` compare as numbers (`True == 1`); any of them against a value of
   another built-in kind is `False` (both `__eq__` return NotImplemented, the objects are distinct).
@@ -208,5 +210,32 @@ def eqDispatch (tagEq listEq depEq : PVal → PVal → PyM PVal) (a b : PVal) : 
 /-- `a == b` as a Python value -/
 def pyEqDeep (objEq : PVal → PVal → PyM PVal) (a b : PVal) : PyM PVal := do
   pure (.bool (← pyEqWith objEq a b))
+
+/-! ### `str.replace(old, new)` for a non-empty `old` of any length -/
+
+/-- one left-to-right pass: `n` characters of an occurrence just replaced are still to be skipped; at a position where
+    `old` starts, `new` is written and the scan resumes after the occurrence (leftmost, non-overlapping — what CPython's
+    `str.replace` does for a non-empty `old`) -/
+def replaceGo (old new : Str) : Nat → Str → Str
+  | _, [] => []
+  | n + 1, _ :: r => replaceGo old new n r
+  | 0, c :: r =>
+    if old.isPrefixOf (c :: r) then new ++ replaceGo old new (old.length - 1) r
+    else c :: replaceGo old new 0 r
+
+/-- `s.replace(old, new)`.  A `str` receiver takes `str` arguments only (TypeError otherwise); `UserString.replace`
+    unwraps `UserString` arguments and returns an instance of the receiver's class.  An empty `old` (insertion between
+    all characters) is not covered. -/
+def pyReplaceAll (s old new : PVal) : PyM PVal :=
+  match s with
+  | .str a =>
+    match old, new with
+    | .str o, .str v => if o.isEmpty then throw .unsupported else pure (.str (replaceGo o v 0 a))
+    | _, _ => throw .typeError
+  | .html a =>
+    match textOf old, textOf new with
+    | some o, some v => if o.isEmpty then throw .unsupported else pure (.html (replaceGo o v 0 a))
+    | _, _ => throw .typeError
+  | _ => throw .unsupported
 
 end HtmlVerif.Py
